@@ -67,6 +67,7 @@ func run(r *vk.Run) {
 	}
 
 	concurrentWalks(r)
+	hailListDoesNotCollect(r)
 
 	// minimums per repetition, about half of what a repetition yields on the unchanged tree
 	need := func(counter string, perRep int) { r.Require(counter, perRep*reps) }
